@@ -229,12 +229,13 @@ def c32(t):
 
 def c25(t):
     out = C.Outcome("C25", "model_checking", t, ["ordinals::Runestone::decipher (message + field decoding)", "runestone::message::Message::from_integers", "runestone::tag::Tag::take",
-                                                 "runestone::flag::Flag::take", "Edict::from_integers", "RuneId::{next,new}", "Etching::supply", "Runestone::integers", "varint::decode"])
+                                                 "runestone::flag::Flag::take", "Edict::from_integers", "RuneId::{next,new,delta}", "Etching::supply", "Runestone::integers", "varint::decode", "ordinals::Runestone::encipher", "Tag::{encode,encode_option}", "Flag::set"])
     out.assumptions = [E2_NOTE,
         "E2 obligations: Runestone::payload and Runestone::integers are overridden by 'the payload decodes to the symbolic integers i0..iN-1' (N <= 4 quick, <= 6 thorough; every u128 value); std HashMap/VecDeque/Vec are modelled as lists in the path state with lookups by symbolic key forking on equality",
         "the reference (harness/ordinals/runestone_h.rs: ref_message, ref_runestone) is written from docs/src/runes/specification.md over fixed arrays and is executed from its own MIR in the same engine; a counterexample is replayed natively by the cfg(vreplay) test vreplay_decipher (real decipher over a real script vs. the natively compiled reference)",
         "the byte stage is decided separately: LEB128 decoding of payloads <= 6 bytes by the Kani harness c25_integers_vs_reference_le6 (and all of C26); script -> payload assembly (bitcoin's Instructions iterator) is decided only in the thorough tier by c25_only_op_return_op13_outputs_yield (3-byte scripts) - longer scripts do not finish under CBMC",
-        "NOT covered: encipher and the encipher->decipher round trip; messages longer than 6 integers"]
+        "round trip: the real Runestone::encipher runs on a symbolic well-formed runestone of a fixed shape (which Option fields are present, 0-2 edicts; 6 shapes quick, +16 random shapes thorough); varint::encode_to_vec is replaced by 'append the integer' and the script builder is opaque, so the chain encipher -> integers -> decipher is decided at the integer level (bytes <-> integers: C26 and the Kani stage harness); well-formedness = what the decoder documents (divisibility <= 38, spacers <= MAX_SPACERS, symbol a char, ids with block 0 only as 0:0, edict outputs <= outputs, pointer < outputs, premine + cap*amount fits u128); the result must be the same runestone with edicts stably sorted by id; replayed natively through a real script by vreplay_roundtrip",
+        "NOT covered: round trips with 3+ edicts (sort stability beyond two elements), payloads split over several pushes, messages longer than 6 integers in the differential part"]
     run_e2(out, "C25", t, timeout=7200)
     f = "runestone_h.rs"
     specs = [dict(h="c25_integers_vs_reference_le6", file=f, bounds="every payload of 0..=6 symbolic bytes; unwind 8", claim="Runestone::integers == sequential LEB128 reference (values and count), Err exactly on a bad varint")]
@@ -283,6 +284,7 @@ def c09(t):
     out.assumptions = [E2_NOTE, SHIM_NOTE,
         "differential: the MIR of the real index_runes and the MIR of harness/lift/src/lift/index/rune_ref.rs (a reference written from docs/src/runes/specification.md over fixed arrays) run on the same symbolic transaction; per output and per rune the stored balances, and the burned totals, must be equal",
         "stated stubs: Runestone::decipher returns the scenario's artifact (C25 decides the real decipher); RuneUpdater::{unallocated,mint,etched,create_rune_entry} return the scenario's input balances / open-or-closed mint / etched id (they read redb tables and the node in the real struct); the balance table is a recorder; events are off (event_sender = None)",
+        "independent of the reference, every path is also asked the step invariant 'balances stored on outputs + burned = input balances + mint + premine' (runes are neither created nor destroyed by allocation)",
         "std HashMap/Vec are list models; HashMap iteration order is insertion order in the model (the result is order-independent: sums per rune id)",
         "per-rune totals (inputs + mint + premine) are assumed to fit u128 (supply conservation, C08); ids obey the edict/mint validity rules decipher enforces (block 0 implies tx 0; edict outputs <= number of outputs; pointer < number of outputs)",
         "scenario bounds: <= 4 outputs with arbitrary OP_RETURN flags, <= 2 input runes, <= 1 (quick) / 2 (thorough) edicts, optional mint / etching with premine / pointer; every id, amount and output index symbolic",
